@@ -189,6 +189,19 @@ func render(c caseT) (root M, files map[string]M, inlined M) {
 		}
 		root = doc(c.Kind, sites(c.Kind, func() any { return ref("other.json", c.Kind, 1) }), withS(c.Kind, comps, ref("other.json", c.Kind, 1)))
 	}
+	// a parameter component with the name of the header component, used by the first
+	// operation before its response header: component names are per section
+	if c.Kind == "header" && c.Shape != "cycle" {
+		pdef := func() M { return M{"name": "q", "in": "query", "schema": M{"type": "string"}} }
+		addParam := func(d M, p any) {
+			op := d["paths"].(M)["/a"].(M)["get"].(M)
+			op["parameters"] = []any{p}
+		}
+		comps := root["components"].(M)
+		comps["parameters"] = M{"C1": pdef()}
+		addParam(root, M{"$ref": "#/components/parameters/C1"})
+		addParam(inlined, pdef())
+	}
 	return root, files, inlined
 }
 
